@@ -1322,13 +1322,16 @@ class H2Stream:
         pipeline on them to transform them into the appropriate form for
         attaching to an event.
         """
+        # Validate the block as it was received: joining the cookie fields
+        # moves them to the end of the block, which would hide a cookie field
+        # that came before the pseudo-header fields.
+        if self.config.validate_inbound_headers:
+            headers = validate_headers(headers, header_validation_flags)
+
         if self.config.normalize_inbound_headers:
             headers = normalize_inbound_headers(
                 headers, header_validation_flags
             )
-
-        if self.config.validate_inbound_headers:
-            headers = validate_headers(headers, header_validation_flags)
 
         if header_encoding:
             headers = _decode_headers(headers, header_encoding)
